@@ -150,7 +150,9 @@ def run(ctx, rep):
                     r_ = K.run_function(m_, 'parity_split_is_fixed', [hp, s_])
                 except (K.KernelViolation, K.Unsupported) as e_:
                     raise AnalysisBroken('cannot interpret parity_split_is_fixed: %s' % e_)
-                want = 1 if (s_ + 1 < mac and sizes[s_ + 1] != 0) else 0
+                # a split is fixed when ANY later split is in use: a later split can be empty (it had no room when the following ones
+                # were allocated) without making its predecessor the growing one (F31: the code looked at the next split only)
+                want = 1 if any(sizes[k_] != 0 for k_ in range(s_ + 1, mac)) else 0
                 nev += 1
                 if (1 if r_ else 0) != want and bad is None:
                     bad = 'split_mac=%d sizes=%s s=%d: returns %s, a split is fixed iff a later split is in use (expected %d)' % (mac, ['0' if x == 0 else 'used' for x in sizes], s_, r_, want)
@@ -277,7 +279,8 @@ def chsize_domain_rule(P, rep, rid, tier='quick'):
 
     full = 3 if tier == 'quick' else 4          # number of splits up to which lost/short files and capacities are enumerated in full
     for mac in ((1, 2, 3) if tier == 'quick' else (1, 2, 3, 4)):
-        olds = [o for o in itertools.product((0, 4, 8), repeat=mac) if all(o[k] != 0 or all(x == 0 for x in o[k:]) for k in range(mac))]
+        # recorded layouts: every pattern, also a zero-sized split in the middle (a split that had no room when the later ones were allocated)
+        olds = list(itertools.product((0, 4, 8), repeat=mac))
         for o in olds:
             a_opts = [sorted({o[k], 0} | ({o[k] - 4} if (o[k] >= 4 and mac < full) else set())) for k in range(mac)]
             for a in itertools.product(*a_opts):
@@ -337,7 +340,7 @@ def chsize_domain_rule(P, rep, rid, tier='quick'):
                         else:
                             rem = req
                             for k in range(mac):
-                                if k + 1 < mac and o[k + 1] != 0 and rem > o[k] and n[k] != o[k]:
+                                if any(o[j_] != 0 for j_ in range(k + 1, mac)) and rem > o[k] and n[k] != o[k]:
                                     why = 'split %d had a used successor and the request reaches beyond it, but its size changed %d -> %d: every later position now maps to another file offset' % (k, o[k], n[k])
                                     break
                                 rem -= n[k]
